@@ -131,6 +131,53 @@ def run(ck):
             rcoq = coq_list([f'({coq_float(a)}, {coq_float(b)})' for a, b in res])
             cases.append((k, f"tune_eqb (ftune {coq_bool(c['mini'])} {cof(c['init'])} {tcoq} {coq_list([coq_float(x) for x in c['cands']])}) {cof(st)} {coq_float(best)} {rcoq}"))
             meta[k] = c
+        # ---- a SECOND tuning run on the same object (other validation data -> other score table): the statement holds for it too,
+        #      whatever the first run recorded
+        for k2 in range(ck.n(80, 600)):
+            cands = rng.sample(temps, rng.choice([2, 3, 4]))
+            mini = rng.random() < 0.5
+            tblA = {c_: rng.choice([0.0, 1.0, 2.0]) for c_ in cands}
+            shift = 10.0 if mini else -10.0            # every score of the second run is worse than the first run's best
+            tblB = {c_: rng.choice([0.0, 1.0, 2.0]) + shift for c_ in cands}
+            model = manual_model(xr, rng.choice([None, 3.0, cands[0] if cands[0] > 0 else None]))
+            cur = {}
+
+            class Scripted2:
+                should_maximize = not mini
+                required_quantities = ['y_true_reg', 'y_pred']
+                task_types = ['reg']
+                def compute(self, **kw):
+                    t = model.split_temperature
+                    return cur['tbl'][0.0 if t is None else float(t)] if (t is None or float(t) in cur['tbl']) else cur['tbl'][min(cur['tbl'])]
+            xmod.Metric.from_name = staticmethod(lambda name: Scripted2())
+            Xv = torch.tensor([[-1.0, 0.0], [1.0, 0.0], [0.25, 1.0]]); yv = torch.zeros(3, 1)
+            for run_no, tbl in ((1, tblA), (2, tblB)):
+                cur['tbl'] = tbl
+                model.split_temperature = model._configured_split_temperature      # what xRFM.fit does before every tuning run
+                try:
+                    model.fit_temperature(Xv, yv, cands)
+                except Exception as e:
+                    ck.violation(f'fit_temperature raised {e!r} on run {run_no}', dict(cands=cands, error=repr(e)), key='raise'); break
+            else:
+                st = model.split_temperature; best = model.best_split_temperature_score_
+                res2 = [(float(a), float(b)) for a, b in model.temperature_tuning_results_]
+                score = lambda a: tblB[0.0 if a is None else a]
+                attr_of = lambda cand: None if cand <= 0 else cand
+                opt = (min if mini else max)(score(attr_of(x)) for x in cands)
+                ck.case(dict(kind='second-tuning-run', cands=cands, tblA={str(a): b for a, b in tblA.items()}, tblB={str(a): b for a, b in tblB.items()}, mini=mini, stored=st, best=best),
+                        nontrivial=True)
+                ck.count('second tuning run on the same object')
+                probs = []
+                if not any(attr_of(x) == st for x in cands) or score(st) != opt:
+                    probs.append(f'second tuning run: stored temperature {st} is not a best candidate of THIS run (its best score is {opt})')
+                elif best != score(st):
+                    probs.append(f'second tuning run: recorded best score {best} is not the score {score(st)} of the stored temperature')
+                if res2 != [(x, score(attr_of(x))) for x in cands]:
+                    probs.append('second tuning run: recorded per-candidate results are not this run\'s true scores')
+                for p_ in probs:
+                    ck.violation(p_ + f' (first run table {tblA}, second run table {tblB}, candidates {cands}, minimise={mini})',
+                                 dict(cands=cands, tblA={str(a): b for a, b in tblA.items()}, tblB={str(a): b for a, b in tblB.items()}, mini=mini, stored=st, best=best, results=res2),
+                                 key=json.dumps(dict(site='second-run', what=p_[:40])))
     finally:
         xmod.Metric.from_name = old_from_name
     res = ck.run_bool_cases('tune', HEADER, cases, shard=500)
